@@ -372,3 +372,14 @@ mod test {
         assert_eq!(diff(&c, &d), vec![Felt::zero(); n]);
     }
 }
+
+#[cfg(falcon_rust_verif)]
+pub(crate) mod verif_access {
+    use super::Felt;
+    pub(crate) fn raw(f: Felt) -> u32 {
+        f.0
+    }
+    pub(crate) fn from_raw(raw: u32) -> Felt {
+        Felt(raw)
+    }
+}
